@@ -94,7 +94,13 @@ type Gen struct {
 	// inFilter: the condition being generated is evaluated on stored items only
 	// (filters), where key attributes always exist; write conditions also see
 	// the empty item.
-	inFilter bool
+	inFilter   bool
+	natFilters []natFilter
+}
+
+type natFilter struct {
+	table string
+	f     *Expr
 }
 
 // KnownTriggers: trigger names of the findings listed in KNOWN_FINDINGS.txt
@@ -1126,6 +1132,22 @@ func (g *Gen) try(m *Model, eng *Engine) *Cmd {
 		}
 		pos := r.Intn(len(cmd.Batch) + 1)
 		cmd.Batch = append(cmd.Batch[:pos:pos], append([]BatchReq{bad}, cmd.Batch[pos:]...)...)
+	case "native":
+		// the native interpreter: activation, and Go matchers registered for
+		// filter expressions that later Scans reuse
+		if mt == nil {
+			return nil
+		}
+		cmd.Op, cmd.Actor = "Native", "manager"
+		if !mc.Native && r.Chance(0.4) {
+			cmd.Native, cmd.T = "activate", ""
+			break
+		}
+		g.inFilter = true
+		f := g.cond(name, def, 1)
+		g.inFilter = false
+		cmd.Native, cmd.Filter, cmd.Verdict = "matcher", f, r.Chance(0.5)
+		g.natFilters = append(g.natFilters, natFilter{name, f})
 	case "keyupdate":
 		if mt == nil || g.avoid["update-names-key-attribute"] {
 			return nil
@@ -1216,7 +1238,13 @@ func (g *Gen) shape(cmd *Cmd, name string, def TableDef, query bool) {
 		}
 		cmd.Back = r.Chance(0.4)
 	}
-	if r.Chance(0.4) {
+	if len(g.natFilters) > 0 && r.Chance(0.35) {
+		nf := pick(r, g.natFilters)
+		cmd.Filter = nf.f
+		if r.Chance(0.6) {
+			cmd.T = nf.table // (the caller's table may differ: same text on another table must not dispatch)
+		}
+	} else if r.Chance(0.4) {
 		g.inFilter = true
 		cmd.Filter = g.cond(name, def, 1)
 		g.inFilter = false
